@@ -64,6 +64,10 @@ class HTTP2Connection(ConnectionInterface):
         self._write_lock = Lock()
         self._sent_connection_init = False
         self._used_all_stream_ids = False
+
+        # Stream permits that are in use or free, but no longer covered by the
+        # server's (lowered) limit. They are withheld as they come free.
+        self._max_streams_debt = 0
         self._connection_error = False
 
         # Mapping from stream ID to response stream events.
@@ -132,7 +136,14 @@ class HTTP2Connection(ConnectionInterface):
                 for _ in range(local_settings_max_streams - self._max_streams):
                     self._max_streams_semaphore.acquire()
 
-        self._max_streams_semaphore.acquire()
+        while True:
+            self._max_streams_semaphore.acquire()
+            if self._max_streams_debt > 0:
+                # The server has lowered its limit since this permit was
+                # handed out. It is withheld rather than used.
+                self._max_streams_debt -= 1
+                continue
+            break
 
         try:
             stream_id = self._h2_state.get_next_available_stream_id()
@@ -423,11 +434,17 @@ class HTTP2Connection(ConnectionInterface):
             )
             if new_max_streams and new_max_streams != self._max_streams:
                 while new_max_streams > self._max_streams:
-                    self._max_streams_semaphore.release()
+                    if self._max_streams_debt > 0:
+                        self._max_streams_debt -= 1
+                    else:
+                        self._max_streams_semaphore.release()
                     self._max_streams += 1
-                while new_max_streams < self._max_streams:
-                    self._max_streams_semaphore.acquire()
-                    self._max_streams -= 1
+                if new_max_streams < self._max_streams:
+                    # Waiting here for the surplus permits would block the
+                    # reader, and with it every stream that could give one
+                    # back. They are withheld as they come free instead.
+                    self._max_streams_debt += self._max_streams - new_max_streams
+                    self._max_streams = new_max_streams
 
     def _response_closed(self, stream_id: int) -> None:
         # If the request or response was abandoned part way through then the
@@ -450,7 +467,10 @@ class HTTP2Connection(ConnectionInterface):
                     event.flow_controlled_length, stream_id
                 )
 
-        self._max_streams_semaphore.release()
+        if self._max_streams_debt > 0:
+            self._max_streams_debt -= 1
+        else:
+            self._max_streams_semaphore.release()
         del self._events[stream_id]
         with self._state_lock:
             if self._connection_terminated and not self._events:
